@@ -224,3 +224,18 @@ package updates
 //@ at call updates.updateModel requires current != nil ==> fresh(ptrof(arg2.Obj))
 //@ at call updates.updateModel requires current != nil ==> arg2.Obj != current
 
+// addMutateOperation (C11): the difference of EVERY mutation is merged with the
+// original value of its column (that merge is what drops a mutation that leaves
+// the value as it was), the first mutation of a column included.
+//@ func (*ModelUpdates).addMutateOperation group c11m
+//@ trace updates.mutate updates.mergeDifference
+//@ loop 1 invariant calls("updates.mergeDifference") == calls("updates.mutate")
+//@ ensures_ok calls("updates.mergeDifference") == calls("updates.mutate")
+
+// initReferences (C04): the first time a row is tracked, the references the
+// database already holds for it are loaded - also when the row is changed by
+// the same transaction.
+//@ func (*referenceTracker).initReferences group c04r
+//@ trace updates.ReferenceProvider.GetReferences
+//@ ensures_ok !old(uuid in rt.tracked) ==> calls("updates.ReferenceProvider.GetReferences") == 1
+
